@@ -23,7 +23,7 @@ RULE = (
 )
 ASSUMPTIONS = ["os.path.splitext defines 'name without last extension'", "MemoryFS and the native filesystem list what was created"]
 MONITORS = ["asset_lookup", "exists", "repeat_read", "pack_banner"]
-REQUIRED = ["specified_other_case", "specified_in_subdir_other_case", "specified_missing_with_pattern_match",
+REQUIRED = ["entry_matches_two_kinds", "multi_dot_name", "specified_other_case", "specified_in_subdir_other_case", "specified_missing_with_pattern_match",
             "specified_missing_subdir_with_pattern_match", "specified_missing_no_match", "pattern_hit", "near_miss_only",
             "no_match_none", "pack_banner_inside", "pack_banner_beside", "pack_banner_none", "pack_sibling_prefix_name",
             "native", "memory"]
@@ -33,16 +33,16 @@ AUDIO = [".mp3", ".oga", ".ogg", ".wav"]
 KINDS = ["BANNER", "BACKGROUND", "CDTITLE", "JACKET", "CDIMAGE", "MUSIC"]
 ATTR = {"BANNER": "banner", "BACKGROUND": "background", "CDTITLE": "cdtitle", "JACKET": "jacket", "CDIMAGE": "cdimage", "MUSIC": "music"}
 HITS = {
-    "BANNER": ["banner.png", "Banner.PNG", "song-bn.png", "MyBN.jpg", "xxbanner2.gif", "song.bn.png"],
-    "BACKGROUND": ["background.png", "BG.png", "song-bg.JPG", "my background 1.jpeg", "songBG.bmp"],
+    "BANNER": ["banner.png", "Banner.PNG", "song-bn.png", "MyBN.jpg", "xxbanner2.gif", "song.bn.png", "Banner-bg.png", "Banner.ogg", "Song ver.2 Banner.PNG"],
+    "BACKGROUND": ["background.png", "BG.png", "song-bg.JPG", "my background 1.jpeg", "songBG.bmp", "Mr. Saxobeat-bg.png", "CDTitle BG.jpg"],
     "CDTITLE": ["cdtitle.png", "CDTitle.gif", "my cdtitle 2.png"],
-    "JACKET": ["jk_song.png", "JK_x.PNG", "jacket.png", "Song Jacket.jpg", "AlbumArt.jpg"],
-    "CDIMAGE": ["song-cd.png", "X-CD.PNG"],
+    "JACKET": ["jk_song.png", "JK_x.PNG", "jacket.png", "Song Jacket.jpg", "AlbumArt.jpg", "Jacket-cd.png", "v1.0 albumart.jpeg"],
+    "CDIMAGE": ["song-cd.png", "X-CD.PNG", "A.I.-cd.png"],
     "MUSIC": ["song.ogg", "Song.MP3", "a.wav", "b.oga"],
 }
 NEAR = {
-    "BANNER": ["bn-song.png", "ban.png", "bnx.png", "banne.png"],
-    "BACKGROUND": ["bgx.png", "backgroun.png", "bg2.png"],
+    "BANNER": ["bn-song.png", "ban.png", "bnx.png", "banne.png", "bn.bak.png"],
+    "BACKGROUND": ["bgx.png", "backgroun.png", "bg2.png", "bg.old.png"],
     "CDTITLE": ["cdtitl.png", "cd title.png"],
     "JACKET": ["xjk_.png", "jk-song.png", "jacke.png", "album art.png"],
     "CDIMAGE": ["song-cd2.png", "cd.png", "song_cd.png"],
@@ -175,6 +175,10 @@ def check_dir(ctx, case, t):
         sf[k] = v
     entries = list(song["files"]) + list(song["dirs"])
     any_match = any(matches(k, e) for k in KINDS for e in entries)
+    if any(sum(matches(k, e) for k in KINDS) >= 2 for e in entries):
+        ctx.feat("entry_matches_two_kinds")
+    if any(e.count(".") >= 2 for e in entries):
+        ctx.feat("multi_dot_name")
     ctx.begin(case, nontrivial=any_match)
     assets = Assets(sdir, simfile=sf, filesystem=t.fs)
     for k in KINDS:
